@@ -1,0 +1,14 @@
+//go:build verif
+
+package codex
+
+import "github.com/creack/pty"
+
+// VerifExecInitBytes is newExecInitMsg(...).ToBytes() (verification harness only).
+func VerifExecInitBytes(usePty bool, cmd, term string, hasSize bool, rows, cols, x, y uint16) []byte {
+	var size *pty.Winsize
+	if hasSize {
+		size = &pty.Winsize{Rows: rows, Cols: cols, X: x, Y: y}
+	}
+	return newExecInitMsg(usePty, cmd, term, size).ToBytes()
+}
